@@ -147,6 +147,53 @@ type runner struct {
 	w     *hx.W
 	class string
 	hist  []string
+	// respell: the scripted server writes its response keywords (status, data type, response code
+	// name) in lower or mixed case; RFC 9051 section 9 rule (1): they are case-insensitive
+	respell *rand.Rand
+}
+
+func mixCase(rng *rand.Rand, w string) string {
+	b := []byte(w)
+	all := rng.Intn(2) == 0
+	for i := range b {
+		if b[i] >= 'A' && b[i] <= 'Z' && (all || rng.Intn(2) == 0) {
+			b[i] += 32
+		}
+	}
+	return string(b)
+}
+
+// respellResponse rewrites only the head of the first line: "<tag|*> [n] KEYWORD" and, for status
+// responses, the name of the bracketed response code. Arguments and literal data are left alone.
+func respellResponse(rng *rand.Rand, s string) string {
+	eol := strings.Index(s, "\r\n")
+	if eol < 0 {
+		return s
+	}
+	line, rest := s[:eol], s[eol:]
+	f := strings.SplitN(line, " ", 4)
+	if len(f) < 2 || f[0] == "+" {
+		return s
+	}
+	k := 1
+	if _, err := strconv.Atoi(f[1]); err == nil && f[0] == "*" && len(f) > 2 {
+		k = 2
+	}
+	kw := strings.ToUpper(f[k])
+	f[k] = mixCase(rng, f[k])
+	switch kw {
+	case "OK", "NO", "BAD", "BYE", "PREAUTH":
+		if k+1 < len(f) && strings.HasPrefix(f[k+1], "[") {
+			// [CODE] or [CODE arg ...]: the code name ends at the first space or ']'
+			c := f[k+1]
+			end := strings.IndexAny(c, " ]")
+			if end < 0 {
+				end = len(c)
+			}
+			f[k+1] = mixCase(rng, c[:end]) + c[end:]
+		}
+	}
+	return strings.Join(f, " ") + rest
 }
 
 func (r *runner) fail(class, detail string, extra map[string]interface{}) {
@@ -205,6 +252,9 @@ func (r *runner) compare(c *imapclient.Client, ref *refState, after string) bool
 
 // send writes one scripted step and waits until the client has processed it.
 func (r *runner) send(p *peer, cEnd *vconn.Conn, s string) bool {
+	if r.respell != nil {
+		s = respellResponse(r.respell, s)
+	}
 	r.hist = append(r.hist, "S: "+strings.TrimRight(s, "\r\n"))
 	if _, err := p.conn.Write([]byte(s)); err != nil {
 		r.fail("connection-lost", "the client closed the connection although the server behaved conformantly: "+err.Error(), nil)
@@ -1621,6 +1671,10 @@ func body(w *hx.W) {
 	n := w.Pick(5000, 100000)
 	for i := 0; i < n; i++ {
 		r := &runner{w: w}
+		if i%5 == 3 {
+			r.respell = rand.New(rand.NewSource(rng.Int63()))
+			w.Metric("scripts_with_respelled_response_keywords", 1)
+		}
 		switch {
 		case i%10 < 4:
 			r.class = "pipelined"
